@@ -49,6 +49,11 @@ def main():
         res = common.Result(args.pid, tier, seed)
         try:
             res.gate = common.properties_gate(args.pid)
+            if tier == "thorough" and not args.replay:
+                ok, det = common.coqchk_gate(args.pid)
+                res.notes["coqchk"] = det
+                if not ok:
+                    res.violation("proof:coqchk", "independent re-check with coqchk failed: " + "; ".join(det["problems"]), det, no_input=True)
             mod.run(res, replay=args.replay)
         except common.BuildError as e:
             res.violation("build:" + str(e)[:60], "cannot build: %s\n%s" % (e, e.out[-1500:]), {"build": str(e)}, no_input=True)
